@@ -150,16 +150,28 @@ dispatch_walltime(const struct timespec *inval, int64_t delta)
 {
 	int64_t nsec;
 	if (inval) {
+		if (unlikely((uint64_t)inval->tv_sec >
+				DISPATCH_TIME_MAX_VALUE / NSEC_PER_SEC)) {
+			// not representable as a wall time (and the conversion to
+			// nanoseconds below could wrap around)
+			return DISPATCH_TIME_FOREVER;
+		}
 		nsec = (int64_t)_dispatch_timespec_to_nano(*inval);
 	} else {
 		nsec = (int64_t)_dispatch_get_nanoseconds();
 	}
-	nsec += delta;
-	if (nsec <= 1) {
-		// -1 is special == DISPATCH_TIME_FOREVER == forever
-		return delta >= 0 ? DISPATCH_TIME_FOREVER : (dispatch_time_t)-2ll;
+	if (unlikely(os_add_overflow(nsec, delta, &nsec))) {
+		// nsec is not negative here, only a positive delta can overflow
+		return DISPATCH_TIME_FOREVER;
 	}
-	return (dispatch_time_t)-nsec;
+	if (nsec <= 1) {
+		// underflow; -1 is special == DISPATCH_TIME_FOREVER == forever
+		return (dispatch_time_t)-2ll;
+	}
+	// range-checks the value: anything beyond DISPATCH_TIME_MAX_VALUE would
+	// otherwise be encoded as a time on another clock
+	return _dispatch_clock_and_value_to_time(DISPATCH_CLOCK_WALL,
+			(uint64_t)nsec);
 }
 
 uint64_t
